@@ -305,6 +305,15 @@ def run(seed, tier):
     return r
 
 
+def entry(seed, tier, **_kw):
+    """entry point for tools/check.py (props.py: corr=[("harness.validity", "entry", {})])"""
+    r = run(seed, tier)
+    keep = ("ok", "cases", "distinct_nontrivial", "samples", "outcomes", "by_stream", "accepted", "accepted_by_cls", "identity_checks", "table_rows_total", "table_rows_run", "python_optimize_flag", "wall_s")
+    out = {k: r[k] for k in keep}
+    out["disagreements"] = r["disagreements"][:3]
+    return out
+
+
 if __name__ == "__main__":
     import json
 
